@@ -53,8 +53,9 @@ type globPatObs struct {
 	XDots   int          `json:"xdots"`   // ... fields with a "." or ".." component
 	XErr    string       `json:"xerr"`
 	XSorted bool         `json:"xsorted"`
-	XV      [][]string   `json:"xv"` // $v with the pattern text as the value of v (patterns without a backslash)
-	XQ      [][]string   `json:"xq"` // "$v"
+	EscRoot bool         `json:"escroot"` // absolute pattern: the same result when the first slash is written \/
+	XV      [][]string   `json:"xv"`      // $v with the pattern text as the value of v (patterns without a backslash)
+	XQ      [][]string   `json:"xq"`      // "$v"
 	NoBS    bool         `json:"nobs"`
 	Panic   string       `json:"panic"`
 }
@@ -94,6 +95,11 @@ func runGlobPat(p globPat) (o *globPatObs) {
 	res, err := pattern.Glob(o.Text)
 	if err != nil {
 		o.Err = err.Error()
+	}
+	o.EscRoot = true
+	if p.Abs {
+		res2, err2 := pattern.Glob("\\" + o.Text)
+		o.EscRoot = (err == nil) == (err2 == nil) && strings.Join(res, "\x00") == strings.Join(res2, "\x00")
 	}
 	seen := map[string]bool{}
 	for i, r := range res {
